@@ -186,8 +186,10 @@ pub trait MysqlShim<W: Read + Write> {
     ) -> Result<(), Self::Error>;
 
     /// Called when client switches database.
-    fn on_init(&mut self, _: &str, _: InitWriter<'_, W>) -> Result<(), Self::Error> {
-        Ok(())
+    ///
+    /// The default implementation accepts every database switch.
+    fn on_init(&mut self, _: &str, w: InitWriter<'_, W>) -> Result<(), Self::Error> {
+        Ok(w.ok()?)
     }
 
     /// Provides the TLS configuration, if we want to support TLS.
